@@ -673,6 +673,8 @@ theorem updateInflight_same (fuel : Nat) : ∀ (s : S) (idx : Nat),
     · exact ⟨[], Same.refl s, NoCompl.nil, by simp [uidsOf]⟩
     · rename_i m hm
       split
+      · exact ⟨[], Same.refl s, NoCompl.nil, by simp [uidsOf]⟩
+      split
       · split
         · extract_lets m' s1
           have h1 : Same [] s s1 := by
@@ -706,10 +708,9 @@ theorem updateInflight_same (fuel : Nat) : ∀ (s : S) (idx : Nat),
 def ackState (s : S) (mid : Nat) (m : OutMsg) : S :=
   { s with
     out := s.out.filter (·.mid ≠ mid)
-    infos := s.infos.modify m.info (fun x => { x with published := true })
+    infos := s.infos.modify m.info (fun _ => { rc := rcSuccess, published := true })
     inflight := if m.qos > 0 then s.inflight - 1 else s.inflight
-    log := s.log ++ [.onPublish mid, .completed m.info mid,
-      .infoDone m.info ((s.infos[m.info]?.map (·.rc)).getD 0)] }
+    log := s.log ++ [.onPublish mid, .completed m.info mid, .infoDone m.info rcSuccess] }
 
 theorem doOnPublish_spec (s : S) (mid : Nat) (m : OutMsg) (hf : s.out.find? (·.mid = mid) = some m) :
     ∃ g, Same g (ackState s mid m) (s.doOnPublish mid).1 ∧ NoCompl g ∧
@@ -892,6 +893,8 @@ theorem connackResend_same (fuel : Nat) : ∀ (s : S) (idx : Nat) (rc : RC),
     · exact ⟨[], Same.refl s, NoCompl.nil, fun _ => by simp [uidsOf]⟩
     · rename_i m hm
       split
+      · exact ⟨[], Same.refl s, NoCompl.nil, fun _ => by simp [uidsOf]⟩
+      split
       · refine ⟨[], ?_, NoCompl.nil, fun _ => by simp [uidsOf]⟩
         exact (loopWrite_low s).same
       · split
@@ -1015,7 +1018,12 @@ theorem handleConnack_sameQ (s : S) (sp : Bool) (result : Nat) (ok : Bool) :
     · split
       · exact (Same.refl s).toQ
       · have h1 : Same [] s s0 := by apply Same.upd <;> rfl
-        exact (h1.trans0 (reconnect_same _ _)).toQ
+        have h2 := h1.trans0 (reconnect_same s0 ok)
+        split
+        · rename_i s' hr
+          rw [hr] at h2
+          exact (h2.trans0' (Low.emit_ng _ _ rfl).same).toQ
+        · exact h2.toQ
     · have h1 : Low [] s s1 := by
         unfold s1; split
         · low_upd
